@@ -105,6 +105,9 @@ Step(st, o) ==
     [] o.op = "print" ->
          IF st.h[o.n].m # "output" THEN Fail(st, FileErr)
          ELSE SetFile(st, st.h[o.n].name, st.store[st.h[o.n].name] \o o.text \o CRLF)
+    [] o.op = "printnl" ->     \* PRINT #n, (no items): just the line end
+         IF st.h[o.n].m # "output" THEN Fail(st, FileErr)
+         ELSE SetFile(st, st.h[o.n].name, st.store[st.h[o.n].name] \o CRLF)
     [] o.op = "given" ->       \* the file exists with this content before the program starts
          SetFile(st, o.name, o.text)
     [] o.op = "printsemi" ->   \* PRINT #n, text;
